@@ -98,6 +98,29 @@ def run_generators(log):
     return ok
 
 
+def spec_closure(pid):
+    """Spec/*.v files in the dependency closure of Properties/<pid>.v (from the Makefile's dependency file)"""
+    dep = os.path.join(COQ, ".Makefile.d")
+    if not os.path.exists(dep):
+        return []
+    deps = {}
+    for line in open(dep):
+        if ":" not in line:
+            continue
+        lhs, rhs = line.split(":", 1)
+        tgt = [t for t in lhs.split() if t.endswith(".vo")]
+        if tgt:
+            deps[tgt[0]] = [d for d in rhs.split() if d.endswith(".vo")]
+    seen, todo = set(), ["Properties/%s.vo" % pid]
+    while todo:
+        t = todo.pop()
+        if t in seen:
+            continue
+        seen.add(t)
+        todo.extend(deps.get(t, []))
+    return sorted(t[:-1] for t in seen if t.startswith("Spec/"))
+
+
 def build_proofs(pid, cfg, log):
     """returns dict(proof_ok, obligations, discharged, assumptions, problems)"""
     res = dict(proof_ok=False, obligations=0, discharged=0, assumptions={}, problems=[])
@@ -158,10 +181,10 @@ def build_proofs(pid, cfg, log):
             parts = line.split()
             if len(parts) == 2:
                 want[parts[1]] = parts[0]
-    got = hashlib.sha256(open(os.path.join(COQ, "Properties", pid + ".v"), "rb").read()).hexdigest()
-    key = "Properties/%s.v" % pid
-    if want.get(key) != got:
-        res["problems"].append("statement hash of %s differs from statements.lock" % key)
+    for key in ["Properties/%s.v" % pid] + spec_closure(pid):
+        got = hashlib.sha256(open(os.path.join(COQ, key), "rb").read()).hexdigest()
+        if want.get(key) != got:
+            res["problems"].append("statement hash of %s differs from statements.lock (the meaning of the pinned statements lives in the Spec files they mention)" % key)
     hits = forbidden_scan()
     if hits:
         res["problems"].append("forbidden tokens: " + "; ".join(hits[:10]))
@@ -471,6 +494,9 @@ def check(pid, tier="quick", seed=0, replay=None):
 
     all_lines, all_res = [], []
     streams = []
+    infra = []
+    if tier == "thorough" and cfg.get("release", True) and exe and not exe_rel:
+        infra.append("the release build of the harness failed")
     if exe and driver:
         # 1. corpus (minimised earlier failures and known-finding witnesses), always first
         for path in sorted(glob.glob(os.path.join(VERIF, "corpus", pid, "*.case"))):
@@ -495,6 +521,14 @@ def check(pid, tier="quick", seed=0, replay=None):
                     streams.append((which, e, ls))
         for tag, e, ls in streams:
             all_lines.extend(ls)
+        # every requested case must have been generated: a harness that dies before its first case, or a shard that
+        # is abandoned, must not shrink the run silently
+        generated = sum(1 for tag, e, ls in streams if not tag.startswith("corpus:") for l in ls if l.startswith("CASE "))
+        expected = sum(((cfg["quick_cases"] if tier == "quick" else cfg["thorough_cases"]) + NPROC - 1) // NPROC * NPROC
+                       for which, e in (("debug", exe), ("release", exe_rel)) if e)
+        notes = [l for tag, e, ls in streams for l in ls if l.startswith("NOTE ")]
+        if generated < expected:
+            infra.append("the harness ran %d of the %d requested cases (%s)" % (generated, expected, "; ".join(notes[:3]) or "no note"))
         # driver in parallel chunks
         from concurrent.futures import ThreadPoolExecutor
         with ThreadPoolExecutor(NPROC) as ex:
@@ -572,6 +606,10 @@ def check(pid, tier="quick", seed=0, replay=None):
         path = write_replay(cid, "correspondence broken: model and implementation disagree on the projected observation (%d cases); no input was found on which the property itself fails" % len(disagreements),
                             "correspondence that no longer checks: %s" % cfg.get("correspondence", pid))
         violations.append("VIOLATION property=%s replay=%s no-failing-input-found" % (pid, path))
+    elif infra:
+        path = os.path.join(VERIF, "replays", "%s-infra.case" % pid)
+        open(path, "w").write("# the check could not run as configured; the correspondence for %s is not established on this run\n# %s\n" % (pid, "\n# ".join(infra)))
+        violations.append("VIOLATION property=%s replay=%s no-failing-input-found" % (pid, path))
     elif not proof["proof_ok"]:
         path = os.path.join(VERIF, "replays", "%s-proof.case" % pid)
         with open(path, "w") as f:
@@ -604,6 +642,7 @@ def check(pid, tier="quick", seed=0, replay=None):
             "theorems": proof.get("theorems", []),
             "open_statements": cfg.get("open_statements", []),
             "proof_problems": proof["problems"],
+            "infrastructure_problems": infra,
             "evaluations": evaluations,
             "distinct_nontrivial": len(nontrivial),
             "rule": cfg.get("rule", ""),
